@@ -40,6 +40,14 @@ def limit_cases():
             yield ("ops%d-multisig%d" % (total, nk), multisig0(nk) + NOP * pad, [], b"", [])
             yield ("ops%d-multisig%d-first" % (total, nk), NOP * pad + multisig0(nk), [], b"", [])
             yield ("ops%d-multisig%d-not" % (total, nk), multisig0(nk) + bytes([OP["NOT"]]) + NOP * (pad - 1), [], b"", [])
+    # m-of-n with empty signatures (the matching loop consumes keys), then more counted operations
+    NOT = bytes([OP["NOT"]])
+    for m, nk in ((1, 1), (1, 3), (2, 3), (3, 20), (1, 20)):
+        ms = O0 + O0 * m + minimal_push(scriptnum(m)) + push(KEY) * nk + minimal_push(scriptnum(nk)) + CMS
+        for total in (200, 201, 202, 201 + nk, 202 + nk):
+            pad = total - 2 - nk
+            if pad >= 0:
+                yield ("ops%d-multisig%dof%d-then" % (total, m, nk), ms + NOT + NOP * pad, [], b"", [])
     yield ("ops-multisig-unexec", O0 + IF + multisig0(20) + ENDIF + NOP * 198 + O1, [], b"", [])
     yield ("ops-multisig-unexec+1", O0 + IF + multisig0(20) + ENDIF + NOP * 199 + O1, [], b"", [])
     # --- keys 20
